@@ -1037,18 +1037,29 @@ class TdlChannel:
         """
         assert (self._fading_generator.shape is not None)
         if len(self._fading_generator.shape) == 1:
+            if signal.ndim != 1:
+                raise ValueError("`signal` must be 1D for a SISO channel")
             return signal
 
         _, num_rx_ant, num_tx_ant = self._fading_generator.shape
 
         if self.switched_direction:
             # Switched directions
-            if num_rx_ant == 1 and signal.ndim == 1:
-                signal = np.reshape(signal, (1, signal.size))
+            num_in_ant = num_rx_ant
         else:
             # Original directions
-            if num_tx_ant == 1 and signal.ndim == 1:
-                signal = np.reshape(signal, (1, signal.size))
+            num_in_ant = num_tx_ant
+
+        if num_in_ant == 1 and signal.ndim == 1:
+            signal = np.reshape(signal, (1, signal.size))
+
+        # The signal must have one row per transmitting antenna. Check this
+        # here, before a new impulse response is generated, so that a
+        # rejected signal does not advance the fading generator.
+        if signal.ndim != 2 or signal.shape[0] != num_in_ant:
+            raise ValueError(
+                "`signal` must have one row for each of the {0} transmitting "
+                "antennas".format(num_in_ant))
         return signal
 
     def corrupt_data(self, signal: np.ndarray) -> np.ndarray:
